@@ -1,11 +1,15 @@
 pub mod c01;
+pub mod c03;
+pub mod judge;
+pub mod universe;
 pub mod c12;
+pub mod c14;
 pub mod corpus;
 pub mod lexemes;
 
 use crate::engine::PropDef;
 
 pub fn registry() -> &'static [PropDef] {
-    static REG: &[PropDef] = &[c01::DEF, c12::DEF];
+    static REG: &[PropDef] = &[c01::DEF, c03::DEF, c12::DEF, c14::DEF];
     REG
 }
